@@ -457,10 +457,13 @@ def _put_one_constant(
                         )) +
                         f', got {value.__class__.__name__}')
 
+    if (value < 0 if isinstance(value, (int, float)) else value.imag < 0 if isinstance(value, complex) else False):
+        raise NodeError('Constant.value cannot be negative')
+
     src = repr(value)
 
     if isinstance(value, (int, float, complex)):
-        if src.lstrip('(').startswith('-'):  # look at the repr() and not `value < 0` because of negative zero, `-0.0` and `-0j` are a UnaryOp in source as well
+        if src.lstrip('(').startswith('-'):  # look at the repr() as well as `value < 0` because of negative zero, `-0.0` and `-0j` are a UnaryOp in source too
             raise NodeError('Constant.value cannot be negative')
 
         if src.startswith('('):  # '(1+2j)' is a BinOp in source
